@@ -425,7 +425,7 @@ func (w *treeWorld) exec(r *Run, line string) {
 			if ft.hit {
 				if err == nil {
 					r.Emit(line, "root "+hx(root[:]))
-					r.Fail(fmt.Sprintf("[C07,C08] UpsertLeaf swallowed a storage error at statement %d and recorded root %s", k, root.Hex()), cp())
+					r.Fail(fmt.Sprintf("[C07,C08,C11] UpsertLeaf swallowed a storage error at statement %d and recorded root %s", k, root.Hex()), cp())
 				} else {
 					r.Emit(line, "err fault")
 				}
